@@ -281,7 +281,8 @@ pub fn gen_pool(rng: &mut Rng, class: NameClass, count: usize) -> Vec<String> {
             2 => rng.range(28, 31) as usize,
             _ => rng.range(1, 6) as usize,
         };
-        let cand = gen_name(rng, class, len);
+        // now and then the one name the format itself uses: an object called like the root
+        let cand = if rng.chance(1, 40) { "Root Entry".to_string() } else { gen_name(rng, class, len) };
         if class == NameClass::Disputed {
             // never two names that some case mapping could identify
             let f = |s: &str| s.to_uppercase().to_lowercase();
